@@ -241,7 +241,7 @@ def expectErr (oc k : Nat) (e : String) : Bool :=
   match oc with
   | 0 => e == "nil"
   | 1 => e == s!"err:fail-{k}"
-  | _ => (e.splitOn s!"panic-{k}").length > 1
+  | _ => e != "nil" && (e.splitOn "panic").length > 1     -- "panic recovered inside …: <value>" whatever the type of the panic value
 
 def onEvent (p : Params) (_ : Unit) (b : Book) (o : Obs) (_ : Book) : Unit × List Viol :=
   match o with
